@@ -32,7 +32,7 @@ COMPONENTS = common.REAL_COMPONENTS
 ASSUMPTIONS = ["attempt hooks, sleep handler, abort_if and result classifier are well-behaved (the statement is silent on them)",
                "'final failure' = the last failure the loop recorded: an abort poll answering True immediately after an attempt ends hides that attempt's failure (exception or result) from the outcome",
                "sampling, not proof"]
-BUDGETS = {"quick": (20000, 40), "thorough": (1200000, 280)}
+BUDGETS = {"quick": (60000, 90), "thorough": (3500000, 285)}
 
 CANCEL_TYPES = {"KeyboardInterrupt", "SystemExit", "CancelledError"}
 
